@@ -18,6 +18,8 @@ func genCfg(t *rapid.T) sim.Config {
 		AppendEnc: rapid.IntRange(0, 3).Draw(t, "appendenc") == 0,
 		RawAPI:    rapid.IntRange(0, 4).Draw(t, "rawapi") == 0,
 		Stats:     rapid.IntRange(0, 3).Draw(t, "stats") == 0,
+		// with ManualFlush what an application writes stays in the writer until it flushes or receives
+		ManualFlush: rapid.IntRange(0, 5).Draw(t, "manualflush") == 0,
 	}
 }
 
